@@ -82,6 +82,8 @@ POOLS = {
         "s1": ["s1", 'say "hi"', "a\\b", "l1\nl2", "ü<&>'", " lead ", "tab\there", "中文 \U0001F600"],
         "s2": ["s2", "x=1, y=[2]", "'single'", "semi;colon", "%% @en", "\\\\server\\share", "q\"\"\"q"],
         "e": [""],
+        # quoting hazards: multi-line AND quotes, trailing quote / backslash, lone specials
+        "nq": ['l1\nl2"', 'a\n"""b', '"', "\\", "ends\\", 'x\n\\"y\n', "<b>&amp;</b>", 'tab\t"q"', "''' '"],
     },
     "int": {"0": [0], "1": [1], "7": [7, -1, 2 ** 31, 2 ** 70, -(2 ** 63), 12345678901234567890]},
     "float": {"0": [0.0], "1": [1.0],
